@@ -32,5 +32,146 @@ BUILD_URL = Contract(
 )
 
 
+
+
+# --------------------------------------------------------------------------- URL.replace
+SPLIT_T = ObjT("SplitResult", scheme=Str, netloc=Str, path=Str, query=Str, fragment=Str,
+               username=Opt(Str), password=Opt(Str), port=Opt(Int))
+KW_T = Dict(username=Maybe_(Opt(Str)), password=Maybe_(Opt(Str)), hostname=Maybe_(Opt(Str)), port=Maybe_(Opt(Int)),
+            scheme=Maybe_(Str), path=Maybe_(Str), query=Maybe_(Str), fragment=Maybe_(Str))
+GETURL = z3.Function("geturl", *([z3.StringSort()] * 6))
+
+
+def _replace_stub(ev, args, kwargs, node):
+    """SplitResult._replace(**kw): a namedtuple copy with the given fields replaced (A-urlsplit-2); the derived attributes
+    (username, password, port) of the copy are not used by URL.replace and are left unconstrained"""
+    from pyvc.builtins import Maybe, ABSENT
+    from pyvc.stubs import USED
+    USED.add("A-urlsplit-2")
+    st = ev.st
+    src = st.obj(st.obj(ev.frame.lookup("self")).fields["_components"])
+    new = {}
+    for f in ("scheme", "netloc", "path", "query", "fragment"):
+        old = src.fields[f]
+        v = kwargs.get(f)
+        if v is None or v is ABSENT:
+            new[f] = old
+        elif isinstance(v, Maybe):
+            new[f] = VStr(z3.If(v.present, v.value.t, old.t))
+        else:
+            new[f] = v
+    for k, v in kwargs.items():
+        if k not in new and v is not ABSENT:
+            # namedtuple._replace raises for unknown field names; URL.replace pops the four authority keys first
+            if not isinstance(v, Maybe) or st.decide(v.present):
+                ev.unsupported(node, "_replace(%s=...)" % k)
+    return st.alloc(Obj("SplitResult", new))
+
+
+def _geturl_stub(ev, args, kwargs, node):
+    from pyvc.stubs import USED
+    USED.add("A-urlsplit-2")
+    o = ev.st.obj(ev.frame.lookup("components"))
+    return VStr(GETURL(*[o.fields[f].t for f in ("scheme", "netloc", "path", "query", "fragment")]))
+
+
+def _ctor_stub(ev, args, kwargs, node):
+    return ev.st.alloc(Obj(D + ":URL", {"_url": args[0]}))
+
+
+R_DEFS = {
+    "changes_netloc()": "has(kwargs, 'username') or has(kwargs, 'password') or has(kwargs, 'hostname') or has(kwargs, 'port')",
+    # the authority is [userinfo '@'] host [':' port]; userinfo ends at the LAST '@' (urlsplit's convention), an IP literal
+    # ends with ']', otherwise the port separator is the last ':'
+    "after_at(n)": "n[last_index_of(n, '@') + 1:] if has(n, '@') else n",
+    "host_of(h)": "h if (h == '' or h[len(h) - 1] == ']' or not has(h, ':')) else h[:last_index_of(h, ':')]",
+    "new_host()": "kwargs['hostname'] if (has(kwargs, 'hostname') and not is_none(kwargs['hostname'])) "
+                  "else host_of(after_at(self._components.netloc))",
+    "new_port()": "kwargs['port'] if has(kwargs, 'port') else self._components.port",
+    "new_user()": "kwargs['username'] if has(kwargs, 'username') else self._components.username",
+    "new_pass()": "kwargs['password'] if has(kwargs, 'password') else self._components.password",
+    "hostport()": "new_host() if is_none(new_port()) else new_host() + ':' + str(new_port())",
+    "userinfo()": "new_user() if is_none(new_pass()) else new_user() + ':' + new_pass()",
+    "new_netloc()": "hostport() if is_none(new_user()) else userinfo() + '@' + hostport()",
+    "pick(k, old)": "kwargs[k] if has(kwargs, k) else old",
+    # what urlsplit derived from netloc (A-urlsplit: SplitResult.username / .password), as an input invariant
+    "n()": "self._components.netloc",
+    "li()": "last_index_of(self._components.netloc, '@')",
+    "uinfo()": "self._components.netloc[:last_index_of(self._components.netloc, '@')]",
+}
+
+def _replace_m2i(m):
+    """solver model -> a URL string and a set of changes for native.c18.check_replace.  The abstract SplitResult of the
+    contract does not tie username/password/port to netloc; the replay rebuilds the URL from the five split fields, so a
+    model that relies on an inconsistent SplitResult does not replay (reported as no-failing-input-found)."""
+    def g(k, d=""):
+        v = m.get(k, d)
+        return d if v in (None, "<None>") else v
+    scheme = g("self._components.scheme") or "http"
+    if not scheme.isalpha() or not scheme.isascii():
+        scheme = "http"
+    path = g("self._components.path")
+    if path and not path.startswith("/"):
+        path = "/" + path
+    url = "%s://%s%s" % (scheme, g("self._components.netloc"), path)
+    if g("self._components.query"):
+        url += "?" + g("self._components.query")
+    if g("self._components.fragment"):
+        url += "#" + g("self._components.fragment")
+    changes = {}
+    for k in ("username", "password", "hostname", "port", "scheme", "path", "query", "fragment"):
+        if m.get("kwargs.has[%r]" % k):
+            if m.get("kwargs[%r]?none" % k):
+                changes[k] = None
+            else:
+                changes[k] = m.get("kwargs[%r]" % k, 0 if k == "port" else "")
+    return {"kind": "replace", "url": url, "changes": changes}
+
+
+URL_REPLACE = Contract(
+    id="URL.replace", file=D, qualname="URL.replace", props=["C18"],
+    params={"self": ObjT(D + ":URL", _components=SPLIT_T), "kwargs": KW_T},
+    returns=ObjT(D + ":URL", _url=Str), defs=R_DEFS,
+    ufuncs={"last_index_of": ([Str, Str], Int), "geturl": ([Str, Str, Str, Str, Str], Str)},
+    stubs={"self.components._replace": _replace_stub, "components.geturl": _geturl_stub, "self.__class__": _ctor_stub},
+    requires=[
+        # last_index_of is the position of the last '@' (definition, instantiated for netloc)
+        "implies(has(n(), '@'), 0 <= li() and li() < len(n()) and n()[li()] == '@' and not has(n()[li() + 1:], '@'))",
+        # SplitResult invariant (A-urlsplit): user name and password are the two parts of the text before the last '@'
+        "is_none(self._components.username) == (not has(n(), '@'))",
+        "implies(is_none(self._components.username), is_none(self._components.password))",
+        "implies(not is_none(self._components.username) and is_none(self._components.password), "
+        "self._components.username == uinfo() and not has(uinfo(), ':'))",
+        "implies(not is_none(self._components.username) and not is_none(self._components.password), "
+        "uinfo() == self._components.username + ':' + self._components.password and not has(self._components.username, ':'))",
+        "implies(not is_none(self._components.port), self._components.port >= 0)",
+        # a port given by the caller is a port number
+        "implies(has(kwargs, 'port') and not is_none(kwargs['port']), kwargs['port'] >= 0)",
+    ],
+    modifies=["kwargs"], frame_check=False, lazy_opt=True,
+    raises={"IndexError": "changes_netloc() and not (has(kwargs, 'hostname') and not is_none(kwargs['hostname'])) and "
+                          "after_at(self._components.netloc) == ''"},
+    ensures={
+        # every component that is not named keeps its value and every named one takes the given value: the new URL is
+        # geturl() of the five split fields, where the authority is re-assembled from (user, password, host, port) with
+        # exactly the named parts exchanged
+        "url": "result._url == old(geturl(pick('scheme', self._components.scheme), "
+               "new_netloc() if changes_netloc() else self._components.netloc, "
+               "pick('path', self._components.path), pick('query', self._components.query), "
+               "pick('fragment', self._components.fragment)))",
+    },
+    canaries={"netloc_never_changes": "result._url == old(geturl(pick('scheme', self._components.scheme), self._components.netloc, "
+                                      "pick('path', self._components.path), pick('query', self._components.query), "
+                                      "pick('fragment', self._components.fragment)))"},
+    assumptions=["A-urlsplit-2"], model_to_inputs=_replace_m2i, native=("c18", "replay"),
+    notes="SplitResult is abstract: five string fields plus the derived username / password / port that urlsplit computed "
+          "from netloc (their relation to netloc is A-urlsplit, exercised by the bounded part); _replace and geturl are "
+          "modelled as a field-wise copy and an uninterpreted function of the five fields",
+)
+
+
 def register(reg):
     reg.add(BUILD_URL)
+    reg.add(URL_REPLACE)
+    for prop in ("components", "netloc", "port", "username", "password"):
+        reg.add(Contract(id="URL." + prop, file=D, qualname="URL." + prop, inline=True, props=["C18"]))
